@@ -77,6 +77,10 @@ class Case(object):
             outcome = self.hook(self, rec, n)
         if outcome is None:
             outcome = self.sched.next()
+        if outcome == LOST:
+            outcome = sim.REQ_LOST if self.tx_total % 2 == 0 else sim.REP_LOST
+        elif outcome == RETRY:
+            outcome = sim.RETRY82 if self.tx_total % 2 == 0 else sim.RETRY8D
         if outcome != sim.OK:
             self.faults_seen += 1
         self.tx_total += 1
@@ -199,18 +203,32 @@ class Case(object):
 
 
 def describe(cfg, prefix):
+    def cmds(b):
+        out = []
+        for e, s in b["cmds"]:
+            c = {"extra_timeout": e * T, "callback_takes": s * T}
+            if out and out[-1][1] == c:
+                out[-1][0] += 1
+            else:
+                out.append([1, c])
+        return [dict(c, count=k) if k > 1 else c for k, c in out]
     return {"n_tries": cfg["n_tries"], "timeout": T, "sequence_mask": cfg.get("mask"), "sequence_start": cfg.get("advance", 0),
             "bursts": [{"api": b.get("api", "send_scp_burst"), "window_size": b["window"],
-                        "commands": [{"extra_timeout": e * T, "callback_takes": s * T} for e, s in b["cmds"]]} for b in cfg["bursts"]],
+                        "commands": cmds(b)} for b in cfg["bursts"]],
             "outcome_per_transmission": list(prefix) + ["ok ..."]}
+
+
+LOST = "lost"              # request lost on even transmissions, reply lost on odd ones (the same history at the client)
+RETRY = "rc_retryable"     # rc 0x82 on even transmissions, 0x8d on odd ones
+FULL = [sim.OK, sim.REQ_LOST, sim.REP_LOST, sim.LATE1, sim.LATE2, sim.DUP, sim.DUPLATE, sim.RETRY82, sim.RETRY8D, sim.FATAL]
+A8 = [sim.OK, LOST, sim.LATE1, sim.LATE2, sim.DUP, sim.DUPLATE, RETRY, sim.FATAL]
+A7 = [sim.OK, LOST, sim.LATE1, sim.LATE2, sim.DUP, RETRY, sim.FATAL]       # quick: the late duplicate only in LIGHT and the sample
+LIGHT = [sim.OK, LOST, sim.LATE1, sim.DUPLATE, RETRY, sim.FATAL]
 
 
 def configs(tier):
     """(family, cfg, alphabet, depth) in a fixed order"""
     quick = tier == "quick"
-    full = [sim.OK, sim.REQ_LOST, sim.REP_LOST, sim.LATE1, sim.LATE2, sim.DUP, sim.DUPLATE, sim.RETRY82, sim.RETRY8D, sim.FATAL]
-    core = [sim.OK, sim.REQ_LOST, sim.REP_LOST, sim.LATE1, sim.LATE2, sim.DUP, sim.RETRY82, sim.FATAL]
-    light = [sim.OK, sim.REQ_LOST, sim.LATE1, sim.DUPLATE, sim.RETRY8D, sim.FATAL]
     out = []
     D = 5 if quick else 6
     # A: one burst, no extras
@@ -218,32 +236,34 @@ def configs(tier):
         for w in (1, 2):
             for tries in (1, 2, 3):
                 cfg = {"n_tries": tries, "bursts": [{"window": w, "cmds": [(0, 0)] * n}]}
-                out.append(("single", cfg, core if quick else full, D))
+                out.append(("single", cfg, A7 if quick else A8, D))
+                if not quick:
+                    out.append(("single", cfg, FULL, D - 1))
     # A2: send_scp
     for tries in (1, 2, 3):
         for extra in (0, 0.5):
-            out.append(("send_scp", {"n_tries": tries, "bursts": [{"api": "send_scp", "window": 1, "cmds": [(extra, 0)]}]}, full, D))
+            out.append(("send_scp", {"n_tries": tries, "bursts": [{"api": "send_scp", "window": 1, "cmds": [(extra, 0)]}]}, FULL, D))
     # A3: per-command extra timeouts and slow callbacks (host busy)
     for n in (2, 3):
         for w in (1, 2):
             for tries in (2, 3):
                 pats = []
-                for k in range(n):
+                for k in ((0, n - 1) if quick else range(n)):
                     pats.append([(0.5, 0) if i == k else (0, 0) for i in range(n)])       # one command with extra
                     pats.append([(0, SLOW) if i == k else (0, 0) for i in range(n)])      # one slow callback
                 pats.append([(0.5 * (i + 1), 0) for i in range(n)])                       # all different
                 pats.append([(0.25, SLOW)] + [(0, 0)] * (n - 1))
                 for p in pats:
-                    out.append(("extras", {"n_tries": tries, "bursts": [{"window": w, "cmds": p}]}, light, D - 1 if quick else D))
+                    out.append(("extras", {"n_tries": tries, "bursts": [{"window": w, "cmds": p}]}, LIGHT, D - 1))
     # B: two consecutive bursts on one connection, the schedule runs through both
     for n1 in (1, 2):
         for n2 in (1, 2):
             for w in (1, 2):
                 for tries in (2, 3):
                     cfg = {"n_tries": tries, "bursts": [{"window": w, "cmds": [(0, 0)] * n1}, {"window": w, "cmds": [(0, 0)] * n2}]}
-                    out.append(("two_bursts", cfg, core if quick else full, D))
+                    out.append(("two_bursts", cfg, A7 if quick else A8, D if n1 == n2 == 1 else D - 1))
     out.append(("two_bursts", {"n_tries": 3, "bursts": [{"window": 2, "cmds": [(0, 0), (0.5, 0)]},
-                                                        {"api": "send_scp", "window": 1, "cmds": [(0, 0)]}]}, light, D))
+                                                        {"api": "send_scp", "window": 1, "cmds": [(0, 0)]}]}, LIGHT, D - 1))
     # C: sequence wrap inside the bound: 3-bit sequence space (module's own seqs(mask=7)); k slow
     # commands (long extra timeout, reply after 40 s) stay outstanding while > 8 further commands pass.
     # Only faults that leave no stale datagram behind (side condition of the known finding D13).
@@ -313,7 +333,7 @@ def run(tier="quick", seed=0):
 
     # seeded sample of deeper schedules (depth 9) on the largest configuration
     n_rand = 1500 if tier == "quick" else 20000
-    full = [sim.OK, sim.REQ_LOST, sim.REP_LOST, sim.LATE1, sim.LATE2, sim.DUP, sim.DUPLATE, sim.RETRY82, sim.RETRY8D, sim.FATAL]
+    full = FULL
     seen = set()
     for _ in range(n_rand):
         n1, n2 = rng.randint(1, 3), rng.randint(0, 3)
